@@ -182,11 +182,18 @@ func monC09(x *Ctx) {
 	}
 	empty, _ := emptyObject(s)
 	n := x.Budget(100, 1000)
-	steps := 2
-	if x.Opt.Tier == "thorough" {
-		steps = 5
-	}
 	for i := 0; i < n; i++ {
+		// histories of 2 calls, every fourth one of 4 calls (quick); 5, every fourth one 8 (thorough)
+		steps := 2
+		if i%4 == 3 {
+			steps = 4
+		}
+		if x.Opt.Tier == "thorough" {
+			steps = 5
+			if i%4 == 3 {
+				steps = 8
+			}
+		}
 		in := fmt.Sprintf("h%d", i)
 		obj := empty
 		obj.Attrs = nil
